@@ -3,8 +3,8 @@ Line-protocol driver for the C08 replication model.
 
   reset
   append <hex> | append -        leader WriteLog (`-` = empty message)
-  step <a|b> <fault>             one partition.replica call for that follower; fault ∈ none cli getack reset connect send recv
-  frestart <w> | flose <w> | offline <w> | online <w> <fault>
+  step <a|b> <fault>             one partition.replica call for that follower; fault ∈ none cli getack reset connect send recv put
+  frestart <w> | flose <w> | offline <w> | online <w> <fault> | join <w>
   lsnap | lrestore <k> | lrestart | gc | expire
 
 Every line answers
@@ -66,16 +66,16 @@ def showOut : Out → String
 
 def b01 (b : Bool) : String := if b then "1" else "0"
 
-def showPeer (c g : Int) (F : Log) (ch : Chan) (st : Stream) (live susp stopped : Bool) : String :=
+def showPeer (c g : Int) (F : Log) (ch : Chan) (st : Stream) (live susp stopped born : Bool) : String :=
   let cs := if stopped then "- -" else s!"{showChan ch} {showStream st}"
-  s!"c={c} g={g} F={showLog F} {cs} live={b01 live} susp={b01 susp} stop={b01 stopped}"
+  s!"c={c} g={g} F={showLog F} {cs} live={b01 live} susp={b01 susp} stop={b01 stopped} born={b01 born}"
 
 def showSt (s : St) : String :=
-  s!"L={showLog s.L} A: {showPeer s.cons s.gack s.F s.chan s.stream s.live s.susp s.stopped} B: {showPeer s.cons2 s.gack2 s.F2 s.chan2 s.stream2 s.live2 s.susp2 s.stopped2} imgs={s.imgs.length} gone={b01 s.gone}"
+  s!"L={showLog s.L} A: {showPeer s.cons s.gack s.F s.chan s.stream s.live s.susp s.stopped s.born} B: {showPeer s.cons2 s.gack2 s.F2 s.chan2 s.stream2 s.live2 s.susp2 s.stopped2 s.born2} imgs={s.imgs.length} gone={b01 s.gone}"
 
 def parseFault : String → Option Fault
   | "none" => some .none | "cli" => some .cli | "getack" => some .getack | "reset" => some .reset
-  | "connect" => some .connect | "send" => some .send | "recv" => some .recv
+  | "connect" => some .connect | "send" => some .send | "recv" => some .recv | "put" => some .put
   | _ => none
 
 def parseWho : String → Option Who
@@ -91,6 +91,7 @@ def parseEv : List String → Option Ev
   | ["lrestart"] => some .lrestart
   | ["offline", w] => (parseWho w).map Ev.offline
   | ["online", w, f] => do let w ← parseWho w; let f ← parseFault f; some (.online w f)
+  | ["join", w] => (parseWho w).map Ev.join
   | ["gc"] => some .gc
   | ["expire"] => some .expire
   | _ => none
